@@ -14,3 +14,52 @@ package xts
 //@ ensures forall(j, 1, 16, tweak[j] == (old(tweak[j]) * 2 + old(tweak[j-1]) / 128) % 256)
 //@ ensures tweak[0] == ite(old(tweak[15]) >= 128, uint8(old(tweak[0]) * 2) ^ 135, uint8(old(tweak[0]) * 2))
 //@ canary ensures tweak[15] == old(tweak[15])
+
+// XTS-AES (IEEE 1619 without ciphertext stealing) over an uninterpreted 16-byte block cipher:
+// C_b = E_k1(P_b xor T_b) xor T_b with T_0 = E_k2(sector number, little-endian, zero padded) and
+// T_{b+1} = T_b * x in GF(2^128) (spec.xtw). Exactly overlapping buffers give the same bytes.
+//@ pred tw(c, s, b, j) = spec.xtw(c.k2, s, b, j)
+//@ pred xe(c, s, b, p, o, j) = spec.benc(c.k1, p[o+0] ^ tw(c,s,b,0), p[o+1] ^ tw(c,s,b,1), p[o+2] ^ tw(c,s,b,2), p[o+3] ^ tw(c,s,b,3), p[o+4] ^ tw(c,s,b,4), p[o+5] ^ tw(c,s,b,5), p[o+6] ^ tw(c,s,b,6), p[o+7] ^ tw(c,s,b,7), p[o+8] ^ tw(c,s,b,8), p[o+9] ^ tw(c,s,b,9), p[o+10] ^ tw(c,s,b,10), p[o+11] ^ tw(c,s,b,11), p[o+12] ^ tw(c,s,b,12), p[o+13] ^ tw(c,s,b,13), p[o+14] ^ tw(c,s,b,14), p[o+15] ^ tw(c,s,b,15), j) ^ tw(c,s,b,j)
+
+//@ func (*Cipher).Encrypt
+//@ props C13 C53
+//@ requires c.k1 != nil && c.k2 != nil && spec.bsize(c.k1) == 16 && spec.bsize(c.k2) == 16
+//@ panics_when len(ciphertext) < len(plaintext) || len(plaintext) % 16 != 0 ||
+//@ |   (len(plaintext) > 0 && sameobj(ciphertext, plaintext) && off(ciphertext) != off(plaintext) && off(ciphertext) < off(plaintext) + len(plaintext) && off(plaintext) < off(ciphertext) + len(plaintext))
+//@ modifies heap
+//@ reindex
+//@ loop 2 invariant len(plaintext) % 16 == 0 && len(plaintext) <= len(entry(plaintext)) && len(ciphertext) - len(plaintext) == len(entry(ciphertext)) - len(entry(plaintext))
+//@ loop 2 invariant off(plaintext) + len(plaintext) == off(entry(plaintext)) + len(entry(plaintext)) && off(ciphertext) + len(ciphertext) == off(entry(ciphertext)) + len(entry(ciphertext))
+//@ loop 2 invariant forall(j, 0, 16, tweak[j] == tw(c, sectorNum, (len(entry(plaintext)) - len(plaintext)) / 16, j))
+//@ check_at "plaintext = plaintext[blockSize:]" forall(j, 0, 16, ciphertext[j] == at(BLK, xe(c, sectorNum, (len(entry(plaintext)) - len(plaintext)) / 16, plaintext, 0, j)))
+//@ mark BLK "for len(plaintext) > 0 {"
+//@ canary assert_at "plaintext = plaintext[blockSize:]" ciphertext[0] == at(BLK, plaintext[0])
+// the not yet processed plaintext is untouched (also when the buffers overlap exactly), nothing outside ciphertext[:len(plaintext)] is written
+//@ loop 2 invariant forall(i, 0, len(plaintext), plaintext[i] == before(plaintext[i]))
+//@ loop 2 invariant sameoutside(entry(ciphertext)[0:len(entry(plaintext))])
+// blocks already written are not touched again
+//@ loop 2 invariant -1 <= 0
+//@ check_at "plaintext = plaintext[blockSize:]" forall(i, 0, len(entry(plaintext)) - len(plaintext), entry(ciphertext)[i] == at(BLK, entry(ciphertext)[i]))
+
+// Decrypt: P_b = D_k1(C_b xor T_b) xor T_b with the same tweaks
+//@ pred xd(c, s, b, p, o, j) = spec.bdec(c.k1, p[o+0] ^ tw(c,s,b,0), p[o+1] ^ tw(c,s,b,1), p[o+2] ^ tw(c,s,b,2), p[o+3] ^ tw(c,s,b,3), p[o+4] ^ tw(c,s,b,4), p[o+5] ^ tw(c,s,b,5), p[o+6] ^ tw(c,s,b,6), p[o+7] ^ tw(c,s,b,7), p[o+8] ^ tw(c,s,b,8), p[o+9] ^ tw(c,s,b,9), p[o+10] ^ tw(c,s,b,10), p[o+11] ^ tw(c,s,b,11), p[o+12] ^ tw(c,s,b,12), p[o+13] ^ tw(c,s,b,13), p[o+14] ^ tw(c,s,b,14), p[o+15] ^ tw(c,s,b,15), j) ^ tw(c,s,b,j)
+
+//@ func (*Cipher).Decrypt
+//@ props C13 C53
+//@ requires c.k1 != nil && c.k2 != nil && spec.bsize(c.k1) == 16 && spec.bsize(c.k2) == 16
+//@ panics_when len(plaintext) < len(ciphertext) || len(ciphertext) % 16 != 0 ||
+//@ |   (len(ciphertext) > 0 && sameobj(plaintext, ciphertext) && off(plaintext) != off(ciphertext) && off(plaintext) < off(ciphertext) + len(ciphertext) && off(ciphertext) < off(plaintext) + len(ciphertext))
+//@ modifies heap
+//@ reindex
+//@ loop 2 invariant len(ciphertext) % 16 == 0 && len(ciphertext) <= len(entry(ciphertext)) && len(plaintext) - len(ciphertext) == len(entry(plaintext)) - len(entry(ciphertext))
+//@ loop 2 invariant off(ciphertext) + len(ciphertext) == off(entry(ciphertext)) + len(entry(ciphertext)) && off(plaintext) + len(plaintext) == off(entry(plaintext)) + len(entry(plaintext))
+//@ loop 2 invariant forall(j, 0, 16, tweak[j] == tw(c, sectorNum, (len(entry(ciphertext)) - len(ciphertext)) / 16, j))
+//@ check_at "plaintext = plaintext[blockSize:]" forall(j, 0, 16, plaintext[j] == at(BLK, xd(c, sectorNum, (len(entry(ciphertext)) - len(ciphertext)) / 16, ciphertext, 0, j)))
+//@ mark BLK "for len(ciphertext) > 0 {"
+//@ canary assert_at "plaintext = plaintext[blockSize:]" plaintext[0] == at(BLK, ciphertext[0])
+// the not yet processed ciphertext is untouched (also when the buffers overlap exactly), nothing outside plaintext[:len(ciphertext)] is written
+//@ loop 2 invariant forall(i, 0, len(ciphertext), ciphertext[i] == before(ciphertext[i]))
+//@ loop 2 invariant sameoutside(entry(plaintext)[0:len(entry(ciphertext))])
+// blocks already written are not touched again
+//@ loop 2 invariant -1 <= 0
+//@ check_at "plaintext = plaintext[blockSize:]" forall(i, 0, len(entry(ciphertext)) - len(ciphertext), entry(plaintext)[i] == at(BLK, entry(plaintext)[i]))
